@@ -138,6 +138,29 @@ func TestWorker(t *testing.T) {
 			fmt.Fprintf(os.Stderr, "RACE-RUN-BEGIN idx=%d seed=%d\n", idx, sc.Seed)
 		}
 		res, tr, own, cross := runAndCheck(t, pd, sc, nil)
+		traceIt := false
+		if arm := os.Getenv("VERIF_TRACE_ARM"); arm != "" && res.Log != nil {
+			traceIt = sc.Arm == arm
+			for _, c := range sc.Clients {
+				if strings.HasPrefix(arm, "client:") && strings.HasPrefix(c.Name, arm[7:]) {
+					traceIt = true
+				}
+			}
+		}
+		if traceIt {
+			// debugging aid: print the first run of an arm and stop
+			b, _ := json.Marshal(sc)
+			fmt.Println("SCENARIO", string(b))
+			for i := range res.Log.Events {
+				if res.Log.Events[i].Kind != "obs.snap" {
+					fmt.Println(res.Log.Events[i].String())
+				}
+			}
+			for _, v := range own {
+				fmt.Println("VIOL", v.Class, v.Disc, v.Msg)
+			}
+			os.Exit(0)
+		}
 		if simsync.RaceEnabled {
 			n := simsync.RaceErrors() - re0
 			fmt.Fprintf(os.Stderr, "RACE-RUN-END idx=%d seed=%d reports=%d\n", idx, sc.Seed, n)
